@@ -52,7 +52,7 @@ func widen(b []byte) []int32 {
 }
 
 func checkC17(c *Ctx) {
-	c.rule = "byte strings = characters of width 2/3/4 straddling every 4096-byte block boundary at every split offset, boundary sizes, BOM variants, legitimate U+FFFD, every single-byte corruption (overwrite 0x80/0xC0/0xF8/0xFF, delete, truncate) of small valid programs, overlong/surrogate encodings, GBK text; each through FileStream.ReadAll, ByteStream.ReadAll, chunked Read(n) for n in 1..17 and random n, FileStream.ReadAll over a named pipe whose writer pauses at chosen offsets (after the BOM, inside characters) or trickles a few hundred bytes one or two at a time, the same marker programs as the SourceCode field of a playground request (raw body bytes), and end-to-end LoadFile+Execute of marker programs (as the main file and as an imported module: directly, in a sub-directory, behind a relay module), among them valid files with 22 unusual characters (U+0000, controls, U+2028, U+FEFF, noncharacters, …) in a literal / a comment / between statements / at a line start / at the end: rejected as a whole or run completely. and 8 goroutines that load and run different multi-block files (each with a module) at the same time under the race detector. Oracle: unicode/utf8 (Valid + []rune). distinct_nontrivial = distinct (case family, validity, reader mode) x byte-level shape hashes with at least one multi-byte character or corruption"
+	c.rule = "byte strings = characters of width 2/3/4 straddling every 4096-byte block boundary at every split offset, boundary sizes, BOM variants, legitimate U+FFFD, every single-byte corruption (overwrite 0x80/0xC0/0xF8/0xFF, delete, truncate) of small valid programs, overlong/surrogate encodings, GBK text; each through FileStream.ReadAll, ByteStream.ReadAll, chunked Read(n) for n in 1..17 and random n, FileStream.ReadAll over a named pipe whose writer pauses at chosen offsets (after the BOM, inside characters) or trickles a few hundred bytes one or two at a time, files of the machine whose reported size is 0 although they have content (procfs / sysfs) against a plain read; the same marker programs as the SourceCode field of a playground request (raw body bytes), and end-to-end LoadFile+Execute of marker programs (as the main file and as an imported module: directly, in a sub-directory, behind a relay module), among them valid files with 22 unusual characters (U+0000, controls, U+2028, U+FEFF, noncharacters, …) in a literal / a comment / between statements / at a line start / at the end: rejected as a whole or run completely. and 8 goroutines that load and run different multi-block files (each with a module) at the same time under the race detector. Oracle: unicode/utf8 (Valid + []rune). distinct_nontrivial = distinct (case family, validity, reader mode) x byte-level shape hashes with at least one multi-byte character or corruption"
 	c.assumptions = []string{"Go's unicode/utf8 is the reference decoder", "a leading BOM is judged only for FileStream (source files); ByteStream may keep or drop it"}
 	rng := c.Rand("c17")
 	cases := []c17Case{}
@@ -263,6 +263,34 @@ func checkC17(c *Ctx) {
 			c.Violation(key, fmt.Sprintf("%s via %s(n=%d): %s %s %s", cs.name, j.mode, j.n, resp.Kind, clip(resp.Panic, 200), clip(resp.Stderr, 200)), rp)
 		}
 	})
+
+	// files whose reported size says nothing about their content (procfs / sysfs report 0): decoded
+	// like any other file - the same characters a plain read of the path delivers
+	{
+		paths := []string{"/proc/version", "/proc/self/comm", "/proc/sys/kernel/ostype", "/proc/sys/kernel/osrelease", "/proc/filesystems", "/proc/self/cmdline", "/proc/sys/kernel/hostname", "/sys/kernel/mm/transparent_hugepage/enabled", "/proc/self/limits"}
+		preqs := []Req{}
+		for _, p := range paths {
+			preqs = append(preqs, Req{Op: "readall", Mode: "path", Text: p})
+		}
+		c.runBatches(preqs, 3, func(i int, req *Req, resp *Resp) {
+			c.Eval()
+			if resp.Kind == "died" || len(resp.Chunks) == 0 {
+				c.Count("special_files_not_present", 1)
+				return
+			}
+			c.Nontrivial("special-file|" + paths[i] + "|" + resp.Kind)
+			c.Count("special_files_read", 1)
+			valid := !(len(resp.Ints) > 1 && resp.Ints[1] == -1)
+			switch {
+			case valid && resp.Kind != "ok":
+				c.Violation("decode:special:"+paths[i], fmt.Sprintf("%s (%d bytes of valid UTF-8 when read plainly) is rejected: %v", paths[i], resp.Ints[0], resp.Err), map[string]interface{}{"path": paths[i]})
+			case valid && !eqRunes(resp.Runes, resp.Chunks[0]):
+				c.Violation("decode:special:"+paths[i], fmt.Sprintf("%s: a plain read delivers %d bytes / %d characters, FileStream.ReadAll %d characters without an error", paths[i], resp.Ints[0], len(resp.Chunks[0]), len(resp.Runes)), map[string]interface{}{"path": paths[i]})
+			case !valid && resp.Kind == "ok":
+				c.Violation("decode:special:"+paths[i], fmt.Sprintf("%s is not valid UTF-8 but was accepted", paths[i]), map[string]interface{}{"path": paths[i]})
+			}
+		})
+	}
 
 	// end-to-end: marker programs
 	mk := func(lines int, filler string) []byte {
